@@ -26,6 +26,7 @@ struct SchedParams {
 	int starve_task = -1;        // task id that is not scheduled during the starve window
 	uint64_t starve_from_us = 0, starve_for_us = 0;
 	uint32_t jitter_us = 0;      // usleep(d) sleeps d + U[0,jitter]
+	uint32_t grid_us = 1;        // >1: every wake-up and every frame start is rounded up to a multiple of this (see grid_round)
 	uint64_t epoch0_us = 1700000000ULL * 1000000ULL;
 	uint64_t max_steps = 3000000;
 	uint64_t max_time_us = 600ULL * 1000000ULL;
@@ -104,6 +105,7 @@ void join(int task);
 void sleep_us(uint64_t us);          // advance on the simulated clock
 void yield(YieldKind k);
 uint64_t now_us();
+uint64_t grid_round(uint64_t t_us);   // next instant of the run's time grid at or after t
 int64_t time_s();          // value the wrapped time() returns now
 uint64_t step();
 uint64_t trace_hash();
